@@ -12,6 +12,7 @@ struct Ctx<'a> {
     t0: std::time::Instant,
     max_tries: u64,
     max_secs: f64,
+    fresh_process: bool,
 }
 
 impl Ctx<'_> {
@@ -24,6 +25,27 @@ impl Ctx<'_> {
             return false;
         }
         self.tried += 1;
+        if self.fresh_process {
+            // The verdict depends on what the process did before (C16): judge every
+            // candidate in a process of its own.
+            let j = super::json::J::obj()
+                .set("property", self.prop)
+                .set("plans", plans.iter().map(Plan::to_json).collect::<Vec<_>>());
+            let f = std::env::temp_dir().join(format!("rce_sim_cand_{}.json", std::process::id()));
+            if std::fs::write(&f, j.to_string()).is_err() {
+                return false;
+            }
+            let exe = std::env::current_exe().expect("current_exe");
+            let out = std::process::Command::new(exe).arg("replay").arg(&f).output();
+            let _ = std::fs::remove_file(&f);
+            return match out {
+                Ok(o) => {
+                    let t = String::from_utf8_lossy(&o.stdout);
+                    o.status.code() == Some(1) && t.contains(&format!("\"kind\":\"{}\"", self.target))
+                }
+                Err(_) => false,
+            };
+        }
         let recs = run_case(plans);
         let out = props::check(self.prop, plans, &recs);
         out.violations.iter().any(|v| v.kind == self.target)
@@ -255,8 +277,9 @@ pub fn minimise(prop: &str, mut plans: Vec<Plan>, target: &str) -> (Vec<Plan>, u
         target,
         tried: 0,
         t0: std::time::Instant::now(),
-        max_tries: 4000,
+        max_tries: if prop == "C16" { 250 } else { 4000 },
         max_secs: 90.0,
+        fresh_process: prop == "C16",
     };
     // Multi-plan cases (C16): first try dropping whole plans, keeping at least two.
     if plans.len() > 2 {
